@@ -25,10 +25,20 @@ HistOK(o, x) == /\ o.k = "rec"
                 /\ \A i \in 1..Len(o.counts.v) : o.counts.v[i] = o.counts.v[1]
                 /\ SumSeq(o.counts.v, 1) + o.rejected.v[1] = x.total
 InRangeOf(lo, hi) == [k |-> "inrange", lo |-> lo, hi |-> hi]
+InRangeRec(lo, hi) == [k |-> "inrangerec", lo |-> lo, hi |-> hi]
 
+\* acceptance depends on the word alone: k copies of a rejected word followed by an accepted word u give what u
+\* alone gives and consume exactly k + 1 words.  `after` is judged against the recorded `alone`.
+Stateless(alone, k, nb) == [k |-> "stateless", alone |-> alone, words |-> k, nb |-> nb]
+StatelessOK(o, x) == /\ o.k = "rec" /\ x.alone.k = "rec"
+                     /\ o.v = x.alone.v
+                     /\ x.alone.used.v = FromInt(x.nb)
+                     /\ o.used.v = FromInt((x.words + 1) * x.nb)
 MatchU(T, o, x) ==
     CASE x.k = "hist" -> HistOK(o, x)
+      [] x.k = "stateless" -> StatelessOK(o, x)
       [] x.k = "inrange" -> o.k = "val" /\ ZLe(x.lo, Dec(T, o.v)) /\ ZLe(Dec(T, o.v), x.hi)
+      [] x.k = "inrangerec" -> o.k = "rec" /\ o.v.k = "val" /\ ZLe(x.lo, Dec(T, o.v.v)) /\ ZLe(Dec(T, o.v.v), x.hi)
       [] OTHER -> Match(o, x)
 
 C20Exp(e) ==
@@ -41,4 +51,6 @@ C20Exp(e) ==
               AllForms(e, [k |-> "rec", v |-> OBytes(a[1].v), used |-> ONat(FromInt(nb * AI(a[2])))])
          [] e.op = "uniform_hist" -> AllForms(e, Hist(AI(a[3]), PowInt(2, T.w)))
          [] e.op = "uniform_point" -> AllForms(e, InRangeOf(AV(a[1]), AV(a[2])))
+         [] e.op = "uniform_stateless" ->
+              [f \in Forms(e) |-> IF f = "alone" THEN InRangeRec(AV(a[1]), AV(a[2])) ELSE Stateless(e.fo.alone, AI(a[5]), nb)]
 =============================================================================
